@@ -1,17 +1,20 @@
 import Driver.Util
 import Driver.BitSet
 import Driver.Set
+import Driver.Gogenproto
 /-! Line-protocol driver: one request per line on stdin, one answer per line on stdout.
 Core-only so that it links as a native executable. -/
 open Drv
 
 structure DState where
   set : Drv.Set.St := none
+  gp : Drv.Gogenproto.St := {}
 
 def step (st : DState) (line : String) : DState × String :=
   match words line with
   | "bs" :: rest => (st, BitSet.handle rest)
   | "set" :: rest => let r := Drv.Set.handle st.set rest; ({ st with set := r.1 }, r.2)
+  | "gp" :: rest => let r := Drv.Gogenproto.handle st.gp rest; ({ st with gp := r.1 }, r.2)
   | "case" :: rest => ({}, joinSp ("case" :: rest))
   | "echo" :: rest => (st, joinSp rest)
   | _ => (st, "bad-op")
